@@ -117,7 +117,7 @@ MATCH_LAYOUT = [('wildcards', 'u32', 0), ('in_port', 'u16', 4), ('dl_src', 'eth'
                 (None, 'pad2', 26), ('nw_src', 'ip', 28), ('nw_dst', 'ip', 32), ('tp_src', 'u16', 36), ('tp_dst', 'u16', 38)]
 
 ACTION_KEYS = [k for k, v in SPECS.items() if 'act' in v]
-STR_CASES = ["", "a", "eth0", "0123456789abcde", "0123456789abcdef"]
+STR_CASES = ["", "a", "eth0", "0123456789abcde", "0123456789abcdef", "caf\xe9-\xff0", "\xe9" * 15]      # incl. non-ASCII latin-1 text up to the field width
 
 
 def be(v, n):
